@@ -1,31 +1,527 @@
-//! C04 — placeholder (not registered in MANIFEST until built).
+//! C04 — a tick patch replays to exactly the state the tick produced.
+//!
+//! Two scenario kinds. `History`: a multi-tick engine run of generated programs; every committed
+//! patch is replayed on a clone of its pre-state (no rule runs), `jump_to_tick` must reproduce every
+//! recorded state, and patches are *delivered with faults* (op removed / duplicated / altered /
+//! reordered, wrong base). `DiffPair`: ordered pairs of well-formed states (independent or related
+//! by a chain of single semantic edits incl. portal/instance evolution) through the crate-private
+//! diff (hook H3): apply(a, diff(a,b)) is b or a typed error, never a third state.
 
 use serde::{Deserialize, Serialize};
+use warp_core::{AttachmentValue, NodeKey, TickCommitStatus, WarpOp, WarpState, WarpTickPatchV1};
 
-use crate::kernel::{Outcome, PropertySpec, Rng, RunCtx, Scenario, Tier};
+use crate::kernel::{catch, Outcome, PropertySpec, Rng, RunCtx, Scenario, Tier};
+use crate::model::refstate::{abs, RefState};
+use crate::props::c01::{diff_states, knobs};
+use crate::world::gen::{gen_prog, gen_state, StateSpec};
+use crate::world::ids;
+use crate::world::rules::{N_RULES, RULE_NAMES};
+use crate::world::states::{edit_spec, state_root};
+use crate::world::tick::{build_engine, Cand, EngineCfg};
 
 pub const SPEC: PropertySpec = PropertySpec {
     id: "C04",
     level: "exploration",
-    rule: "placeholder",
-    quick_runs: 1,
-    thorough_runs: 1,
-    real_components: &[],
-    stub_components: &[],
-    assumptions: &[],
-    fault_kinds: &[],
+    rule: "History: generated multi-instance state + programs for 1-6 sequential engine ticks (node deletion with/without incident edges, edge retype/retarget/re-parent, attachment set/clear, delete-then-recreate), patch replay per tick, jump_to_tick for every tick, patch delivery faults; DiffPair: ordered pair of well-formed states (independent, or related by 1-6 single semantic edits incl. portal open / instance delete) through diff_state + apply; non-trivial = a committed tick with >=1 op, or a diff with >=1 op; distinct = hash of scenario",
+    quick_runs: 40_000,
+    thorough_runs: 2_000_000,
+    real_components: &["tick_patch::diff_state (H3)", "tick_patch::apply_ops_to_state / WarpTickPatchV1::apply_to_state", "GraphStore delete_edge_exact / delete_node_isolated / upsert_edge_record", "Engine::commit_with_receipt / jump_to_tick", "WorldlineState::state_root"],
+    stub_components: &["application rules: data-driven interpreter"],
+    assumptions: &["well-formed state = produced by the reference applier from a generated spec (edges between existing nodes, portal invariants hold)", "fault oracle compares reachable projections because the recorded state root commits to reachable content only"],
+    fault_kinds: &["fault.patch_op_removed", "fault.patch_op_duplicated", "fault.patch_op_altered", "fault.patch_ops_reordered", "fault.patch_wrong_base"],
 };
 
 #[derive(Clone, Debug, Serialize, Deserialize)]
-pub struct C04 {
-    pub placeholder: u8,
+pub enum PatchFault {
+    RemoveOp(usize),
+    DuplicateOp(usize),
+    AlterOp(usize),
+    /// present the ops in reverse order to the raw applier (H3 apply_ops, no canonical re-sort)
+    Reverse,
+    /// apply tick `t`'s patch to the state before tick `base`
+    WrongBase { base: usize },
+}
+
+#[derive(Clone, Debug, Serialize, Deserialize)]
+pub enum C04 {
+    History {
+        state: StateSpec,
+        ticks: Vec<Vec<Cand>>,
+        legacy: bool,
+        workers: usize,
+        /// (tick index, fault)
+        faults: Vec<(usize, PatchFault)>,
+    },
+    DiffPair {
+        a: StateSpec,
+        b: StateSpec,
+        edits: Vec<String>,
+    },
 }
 
 impl Scenario for C04 {
-    fn generate(_rng: &mut Rng, _tier: Tier, _avoid: bool) -> Self {
-        C04 { placeholder: 0 }
+    fn generate(rng: &mut Rng, _tier: Tier, avoid: bool) -> Self {
+        if rng.chance(1, 2) {
+            // History
+            let kn = knobs(rng, avoid);
+            let mut state = gen_state(rng, kn.node_pool.max(3));
+            let n_ticks = rng.urange(1, 6);
+            let mut ticks = Vec::new();
+            let mut k: u16 = 0;
+            let mut nonce = 1;
+            for _ in 0..n_ticks {
+                let n = rng.urange(1, 5);
+                let mut cs = Vec::new();
+                for _ in 0..n {
+                    let wi = rng.usize_below(state.insts.len());
+                    let rule = rng.below(u64::from(N_RULES)) as u8;
+                    let shard = rng.below(3) as u8;
+                    let prog = gen_prog(rng, &state, wi, rule, nonce, &kn);
+                    nonce += 1;
+                    let w = state.insts[wi].w;
+                    state.insts[wi].progs.push((k, shard, prog));
+                    cs.push(Cand { rule, w, k, shard });
+                    k += 1;
+                }
+                ticks.push(cs);
+            }
+            let mut faults = Vec::new();
+            for _ in 0..rng.urange(0, 4) {
+                let t = rng.usize_below(n_ticks);
+                let f = match rng.below(5) {
+                    0 => PatchFault::RemoveOp(rng.usize_below(8)),
+                    1 => PatchFault::DuplicateOp(rng.usize_below(8)),
+                    2 => PatchFault::AlterOp(rng.usize_below(8)),
+                    3 => PatchFault::Reverse,
+                    _ => PatchFault::WrongBase { base: rng.usize_below(n_ticks) },
+                };
+                faults.push((t, f));
+            }
+            C04::History { state, ticks, legacy: rng.chance(1, 5), workers: *rng.pick(&[1usize, 1, 2, 3]), faults }
+        } else {
+            let pool_a = *rng.pick(&[3u8, 4, 6]);
+            let a = gen_state(rng, pool_a);
+            let mut edits = Vec::new();
+            let b = if rng.chance(1, 4) {
+                edits.push("independent".to_owned());
+                let pool_b = *rng.pick(&[3u8, 4, 6]);
+                gen_state(rng, pool_b)
+            } else {
+                let mut b = a.clone();
+                let n = rng.urange(1, 6);
+                for _ in 0..n {
+                    let mut trial = b.clone();
+                    let label = edit_spec(rng, &mut trial);
+                    if avoid && label == "reparent_attached_edge" {
+                        continue;
+                    }
+                    if label != "none" && trial.build_ref().is_ok() {
+                        b = trial;
+                        edits.push(label.to_owned());
+                    }
+                }
+                b
+            };
+            if rng.chance(1, 2) {
+                C04::DiffPair { a, b, edits }
+            } else {
+                C04::DiffPair { a: b, b: a, edits: edits.into_iter().map(|e| format!("inverse:{e}")).collect() }
+            }
+        }
     }
-    fn execute(&self, _ctx: &mut RunCtx) -> Outcome {
-        Outcome::Ok
+
+    fn execute(&self, ctx: &mut RunCtx) -> Outcome {
+        match self {
+            C04::History { state, ticks, legacy, workers, faults } => run_history(state, ticks, *legacy, *workers, faults, ctx),
+            C04::DiffPair { a, b, edits } => run_pair(a, b, edits, ctx),
+        }
+    }
+
+    fn shrink_candidates(&self) -> Vec<Self> {
+        let mut out = Vec::new();
+        match self {
+            C04::History { state, ticks, legacy, workers, faults } => {
+                if !faults.is_empty() {
+                    for i in 0..faults.len() {
+                        let mut f = faults.clone();
+                        f.remove(i);
+                        out.push(C04::History { state: state.clone(), ticks: ticks.clone(), legacy: *legacy, workers: *workers, faults: f });
+                    }
+                }
+                if ticks.len() > 1 {
+                    let mut t = ticks.clone();
+                    t.pop();
+                    let n = t.len();
+                    out.push(C04::History { state: state.clone(), ticks: t, legacy: *legacy, workers: *workers, faults: faults.iter().filter(|(i, _)| *i < n).cloned().collect() });
+                    // drop the first tick
+                    let mut t = ticks.clone();
+                    t.remove(0);
+                    out.push(C04::History {
+                        state: state.clone(),
+                        ticks: t,
+                        legacy: *legacy,
+                        workers: *workers,
+                        faults: faults.iter().filter(|(i, _)| *i > 0).map(|(i, f)| (*i - 1, f.clone())).collect(),
+                    });
+                }
+                for (ti, cs) in ticks.iter().enumerate() {
+                    if cs.len() > 1 {
+                        for ci in 0..cs.len() {
+                            let mut t = ticks.clone();
+                            t[ti].remove(ci);
+                            out.push(C04::History { state: state.clone(), ticks: t, legacy: *legacy, workers: *workers, faults: faults.clone() });
+                        }
+                    }
+                }
+                for (ii, inst) in state.insts.iter().enumerate() {
+                    for (pi, (_, _, p)) in inst.progs.iter().enumerate() {
+                        if p.steps.len() > 1 {
+                            for si in 0..p.steps.len() {
+                                let mut s = state.clone();
+                                s.insts[ii].progs[pi].2.steps.remove(si);
+                                out.push(C04::History { state: s, ticks: ticks.clone(), legacy: *legacy, workers: *workers, faults: faults.clone() });
+                            }
+                        }
+                    }
+                }
+                if *workers > 1 {
+                    out.push(C04::History { state: state.clone(), ticks: ticks.clone(), legacy: *legacy, workers: 1, faults: faults.clone() });
+                }
+                for s in shrink_spec(state) {
+                    out.push(C04::History { state: s, ticks: ticks.clone(), legacy: *legacy, workers: *workers, faults: faults.clone() });
+                }
+            }
+            C04::DiffPair { a, b, edits } => {
+                for s in shrink_spec(a) {
+                    out.push(C04::DiffPair { a: s, b: b.clone(), edits: edits.clone() });
+                }
+                for s in shrink_spec(b) {
+                    out.push(C04::DiffPair { a: a.clone(), b: s, edits: edits.clone() });
+                }
+                // shrink both sides identically (drop the same element)
+                for (sa, sb) in shrink_spec(a).into_iter().zip(shrink_spec(b)) {
+                    out.push(C04::DiffPair { a: sa, b: sb, edits: edits.clone() });
+                }
+            }
+        }
+        out
+    }
+}
+
+/// Structure-preserving spec reductions (only those that keep the reference build valid).
+pub fn shrink_spec(s: &StateSpec) -> Vec<StateSpec> {
+    let mut out = Vec::new();
+    let mut push = |c: StateSpec| {
+        if c.build_ref().is_ok() {
+            out.push(c);
+        }
+    };
+    if s.insts.len() > 1 {
+        let mut c = s.clone();
+        c.insts.pop();
+        push(c);
+    }
+    for ii in 0..s.insts.len() {
+        for i in 0..s.insts[ii].edge_atts.len() {
+            let mut c = s.clone();
+            c.insts[ii].edge_atts.remove(i);
+            push(c);
+        }
+        for i in 0..s.insts[ii].node_atts.len() {
+            let mut c = s.clone();
+            c.insts[ii].node_atts.remove(i);
+            push(c);
+        }
+        for i in 0..s.insts[ii].edges.len() {
+            let mut c = s.clone();
+            let e = c.insts[ii].edges.remove(i).0;
+            c.insts[ii].edge_atts.retain(|(x, _)| *x != e);
+            push(c);
+        }
+        for i in 0..s.insts[ii].nodes.len() {
+            let mut c = s.clone();
+            let n = c.insts[ii].nodes.remove(i).0;
+            c.insts[ii].node_atts.retain(|(x, _)| *x != n);
+            let doomed: Vec<u8> = c.insts[ii].edges.iter().filter(|(_, f, t, _)| *f == n || *t == n).map(|(e, ..)| *e).collect();
+            c.insts[ii].edges.retain(|(e, ..)| !doomed.contains(e));
+            c.insts[ii].edge_atts.retain(|(e, _)| !doomed.contains(e));
+            push(c);
+        }
+    }
+    out
+}
+
+fn proj(s: &RefState, root: &NodeKey) -> RefState {
+    s.reachable_projection(&root.warp_id.0, &root.local_id.0)
+}
+
+fn alter(op: &WarpOp) -> WarpOp {
+    match op.clone() {
+        WarpOp::UpsertNode { node, mut record } => {
+            record.ty = ids::ty(3);
+            WarpOp::UpsertNode { node, record }
+        }
+        WarpOp::UpsertEdge { warp_id, mut record } => {
+            record.ty = ids::ty(3);
+            WarpOp::UpsertEdge { warp_id, record }
+        }
+        WarpOp::SetAttachment { key, value } => WarpOp::SetAttachment {
+            key,
+            value: match value {
+                Some(AttachmentValue::Atom(a)) => {
+                    let mut b = a.bytes.to_vec();
+                    b.push(b'!');
+                    Some(AttachmentValue::Atom(warp_core::AtomPayload::new(a.type_id, bytes::Bytes::from(b))))
+                }
+                Some(other) => Some(other),
+                None => Some(crate::world::prog::val_att(&crate::world::prog::Val { ty: 0, bytes: b"forged".to_vec() })),
+            },
+        },
+        WarpOp::DeleteNode { node } => WarpOp::UpsertNode { node, record: warp_core::NodeRecord { ty: ids::ty(3) } },
+        other => other,
+    }
+}
+
+struct Live {
+    pre: WarpState,
+    post_abs: RefState,
+    root: [u8; 32],
+    patch: WarpTickPatchV1,
+}
+
+fn run_history(spec: &StateSpec, ticks: &[Vec<Cand>], legacy: bool, workers: usize, faults: &[(usize, PatchFault)], ctx: &mut RunCtx) -> Outcome {
+    let warps = spec.warps();
+    let root = spec.root_key();
+    let state = match spec.build() {
+        Ok(s) => s,
+        Err(e) => return Outcome::violation("state_construction_failed", e),
+    };
+    let cfg = EngineCfg { legacy_scheduler: legacy, workers, rule_order: (0..N_RULES).collect(), other_tx: vec![] };
+    let mut engine = match build_engine(state, spec, &cfg) {
+        Ok(e) => e,
+        Err(e) => return Outcome::violation("state_construction_failed", e),
+    };
+    let tape: [u16; 3] = [0, 1, 2];
+    let mut live: Vec<Live> = Vec::new();
+    for cands in ticks {
+        let pre = engine.state().clone();
+        let tx = engine.begin();
+        for c in cands {
+            let _ = engine.apply_in_warp(tx, ids::warp(c.w), RULE_NAMES[usize::from(c.rule.min(3))], &c.scope(), &[]);
+        }
+        if workers > 1 {
+            warp_core::verif::install_claim_controller(Some(warp_core::verif::ClaimController::new(tape.to_vec())));
+        }
+        let res = catch(|| engine.commit_with_receipt(tx));
+        warp_core::verif::install_claim_controller(None);
+        let (snap, _receipt, patch) = match res {
+            Ok(Ok(x)) => x,
+            Ok(Err(_)) => {
+                ctx.hit("reach.history_stopped_at_commit_error");
+                break;
+            }
+            Err(p) => return Outcome::violation("commit_panicked", p),
+        };
+        ctx.count("time.ticks", 1);
+        let post_abs = abs(engine.state(), &warps);
+        // (a) replay the emitted patch on a clone of the pre-state, without running any rule
+        let mut replay = pre.clone();
+        let before_cb = crate::world::rules::callbacks();
+        let r = catch(|| patch.apply_to_state(&mut replay));
+        if crate::world::rules::callbacks() != before_cb {
+            return Outcome::violation("replay_ran_rule_callback", "patch replay invoked a rule callback".to_owned());
+        }
+        match r {
+            Err(p) => return Outcome::violation("patch_replay_panicked", p),
+            Ok(Err(e)) => {
+                let shape = classify_third_state(&abs(&pre, &warps), &post_abs);
+                return Outcome::violation(format!("patch_replay_failed:{shape}"), format!("tick {}: committed patch does not apply to its pre-state: {e:?}; ops {:?}", live.len(), patch.ops()));
+            }
+            Ok(Ok(())) => {}
+        }
+        let replay_abs = abs(&replay, &warps);
+        if replay_abs != post_abs {
+            let shape = classify_third_state(&abs(&pre, &warps), &post_abs);
+            return Outcome::violation(format!("patch_replay_mismatch:{shape}"), format!("tick {}: {}", live.len(), diff_states(&post_abs, &replay_abs)));
+        }
+        match state_root(&replay, root) {
+            Ok(r) if r == snap.state_root => {}
+            Ok(r) => return Outcome::violation("patch_replay_root_mismatch", format!("tick {}: replay root {} != snapshot {}", live.len(), hex::encode(r), hex::encode(snap.state_root))),
+            Err(e) => return Outcome::violation("patch_replay_root_uncomputable", e),
+        }
+        if !patch.ops().is_empty() {
+            ctx.nontrivial(&serde_json::to_vec(&(spec, &ticks[..=live.len()])).unwrap_or_default());
+        }
+        if patch.validate_digest().is_err() || patch.digest() != snap.patch_digest {
+            return Outcome::violation("patch_digest_not_committed", format!("tick {}", live.len()));
+        }
+        live.push(Live { pre, post_abs, root: snap.state_root, patch });
+    }
+    // jump_to_tick reproduces every recorded state
+    for i in 0..live.len() {
+        match catch(|| engine.jump_to_tick(i)) {
+            Err(p) => return Outcome::violation("jump_to_tick_panicked", p),
+            Ok(Err(e)) => return Outcome::violation("jump_to_tick_failed", format!("tick {i}: {e:?}")),
+            Ok(Ok(())) => {}
+        }
+        let got = abs(engine.state(), &warps);
+        if got != live[i].post_abs {
+            let pre_abs = abs(&live[i].pre, &warps);
+            let shape = classify_third_state(&pre_abs, &live[i].post_abs);
+            return Outcome::violation(format!("jump_to_tick_mismatch:{shape}"), format!("tick {i}: {}", diff_states(&live[i].post_abs, &got)));
+        }
+        ctx.hit("reach.jump_to_tick_checked");
+    }
+    // (c) patches delivered with faults
+    for (t, fault) in faults {
+        let Some(l) = live.get(*t) else { continue };
+        let ops = l.patch.ops().to_vec();
+        let rebuilt = |ops: Vec<WarpOp>| WarpTickPatchV1::new(l.patch.policy_id(), l.patch.rule_pack_id(), TickCommitStatus::Committed, l.patch.in_slots().to_vec(), l.patch.out_slots().to_vec(), ops);
+        let (mut base, result): (WarpState, Result<Result<(), String>, String>) = match fault {
+            PatchFault::RemoveOp(i) if !ops.is_empty() => {
+                ctx.hit("fault.patch_op_removed");
+                let mut o = ops.clone();
+                o.remove(i % ops.len());
+                let p = rebuilt(o);
+                let mut b = l.pre.clone();
+                let r = catch(|| p.apply_to_state(&mut b).map_err(|e| format!("{e:?}")));
+                (b, r)
+            }
+            PatchFault::DuplicateOp(i) if !ops.is_empty() => {
+                ctx.hit("fault.patch_op_duplicated");
+                let mut o = ops.clone();
+                o.insert(i % ops.len(), ops[i % ops.len()].clone());
+                let mut b = l.pre.clone();
+                let r = catch(|| warp_core::verif::apply_ops(&mut b, &o).map_err(|e| format!("{e:?}")));
+                (b, r)
+            }
+            PatchFault::AlterOp(i) if !ops.is_empty() => {
+                ctx.hit("fault.patch_op_altered");
+                let mut o = ops.clone();
+                let j = i % ops.len();
+                o[j] = alter(&o[j]);
+                if o[j] == ops[j] {
+                    continue;
+                }
+                let p = rebuilt(o);
+                let mut b = l.pre.clone();
+                let r = catch(|| p.apply_to_state(&mut b).map_err(|e| format!("{e:?}")));
+                (b, r)
+            }
+            PatchFault::Reverse if ops.len() > 1 => {
+                ctx.hit("fault.patch_ops_reordered");
+                let mut o = ops.clone();
+                o.reverse();
+                let mut b = l.pre.clone();
+                let r = catch(|| warp_core::verif::apply_ops(&mut b, &o).map_err(|e| format!("{e:?}")));
+                (b, r)
+            }
+            PatchFault::WrongBase { base } if *base != *t && *base < live.len() => {
+                ctx.hit("fault.patch_wrong_base");
+                let mut b = live[*base].pre.clone();
+                let r = catch(|| l.patch.apply_to_state(&mut b).map_err(|e| format!("{e:?}")));
+                (b, r)
+            }
+            _ => continue,
+        };
+        match result {
+            Err(p) => return Outcome::violation("faulty_patch_apply_panicked", format!("{fault:?}: {p}")),
+            Ok(Err(_)) => ctx.hit("reach.faulty_patch_rejected"),
+            Ok(Ok(())) => {
+                let got_root = state_root(&base, root);
+                let got_abs = abs(&std::mem::take(&mut base), &warps);
+                match got_root {
+                    Ok(r) if r == l.root => {
+                        // accepted under the recorded root: must denote the recorded reachable state
+                        if proj(&got_abs, &root) != proj(&l.post_abs, &root) {
+                            return Outcome::violation("faulty_patch_accepted_under_recorded_root", format!("{fault:?} at tick {t}: different reachable state, same state root"));
+                        }
+                        ctx.hit("reach.faulty_patch_harmless");
+                    }
+                    _ => ctx.hit("reach.faulty_patch_changes_root"),
+                }
+            }
+        }
+    }
+    Outcome::Ok
+}
+
+/// Names the shape of a pre→post transition that failed to replay (for narrow violation classes).
+fn classify_third_state(pre: &RefState, post: &RefState) -> &'static str {
+    for (w, p) in &pre.inst {
+        let Some(q) = post.inst.get(w) else { continue };
+        for (e, (f, _, _)) in &p.edges {
+            if let Some((f2, _, _)) = q.edges.get(e) {
+                if f != f2 && p.edge_att.contains_key(e) && q.edge_att.get(e) == p.edge_att.get(e) {
+                    return "reparented_edge_keeps_attachment";
+                }
+            }
+        }
+    }
+    "other"
+}
+
+fn run_pair(a: &StateSpec, b: &StateSpec, edits: &[String], ctx: &mut RunCtx) -> Outcome {
+    let warps = a.warps();
+    let root = a.root_key();
+    let (sa, sb) = match (a.build(), b.build()) {
+        (Ok(x), Ok(y)) => (x, y),
+        (Err(e), _) | (_, Err(e)) => return Outcome::violation("state_construction_failed", e),
+    };
+    let (ra, rb) = match (a.build_ref(), b.build_ref()) {
+        (Ok(x), Ok(y)) => (x, y),
+        (Err(e), _) | (_, Err(e)) => return Outcome::violation("harness:ref_state_build", e),
+    };
+    if abs(&sa, &warps) != ra || abs(&sb, &warps) != rb {
+        return Outcome::violation("state_construction_mismatch", "patch-built state differs from reference-built state".to_owned());
+    }
+    let ops = match catch(|| warp_core::verif::diff_state(&sa, &sb)) {
+        Ok(o) => o,
+        Err(p) => return Outcome::violation("diff_panicked", p),
+    };
+    ctx.count("time.diffs", 1);
+    for e in edits {
+        ctx.hit(&format!("reach.edit.{e}"));
+    }
+    if ops.is_empty() {
+        if ra != rb {
+            return Outcome::violation("empty_diff_for_different_states", diff_states(&rb, &ra));
+        }
+        return Outcome::Ok;
+    }
+    ctx.nontrivial(&serde_json::to_vec(&(a, b)).unwrap_or_default());
+    // delivered as a canonical patch (what a committed tick goes through)
+    let patch = WarpTickPatchV1::new(0, [0u8; 32], TickCommitStatus::Committed, vec![], vec![], ops.clone());
+    let mut got = sa.clone();
+    match catch(|| patch.apply_to_state(&mut got)) {
+        Err(p) => Outcome::violation("diff_apply_panicked", p),
+        Ok(Err(_)) => {
+            ctx.hit("reach.diff_apply_typed_error");
+            Outcome::Ok
+        }
+        Ok(Ok(())) => {
+            let g = abs(&got, &warps);
+            if g != rb {
+                let shape = classify_third_state(&ra, &rb);
+                return Outcome::violation(format!("diff_third_state:{shape}"), format!("edits {edits:?}: {}\nops: {:?}", diff_states(&rb, &g), ops.iter().map(op_name).collect::<Vec<_>>()));
+            }
+            match (state_root(&got, root), state_root(&sb, root)) {
+                (Ok(x), Ok(y)) if x == y => Outcome::Ok,
+                (x, y) => Outcome::violation("diff_root_mismatch", format!("{x:?} vs {y:?}")),
+            }
+        }
+    }
+}
+
+fn op_name(op: &WarpOp) -> &'static str {
+    match op {
+        WarpOp::OpenPortal { .. } => "OpenPortal",
+        WarpOp::UpsertWarpInstance { .. } => "UpsertWarpInstance",
+        WarpOp::DeleteWarpInstance { .. } => "DeleteWarpInstance",
+        WarpOp::UpsertNode { .. } => "UpsertNode",
+        WarpOp::DeleteNode { .. } => "DeleteNode",
+        WarpOp::UpsertEdge { .. } => "UpsertEdge",
+        WarpOp::DeleteEdge { .. } => "DeleteEdge",
+        WarpOp::SetAttachment { .. } => "SetAttachment",
     }
 }
